@@ -359,6 +359,12 @@ func arithBin(op token.Token, x, y *Term, t types.Type) (*Term, *Term) {
 	case token.XOR:
 		return ranged(App(DeclUF(fmt.Sprintf("bitxor%d", w), SInt, SInt, SInt), x, y)), nil
 	case token.AND_NOT:
+		if y.Op == "int" && y.Int.Sign() >= 0 {
+			p := new(big.Int).Add(y.Int, big.NewInt(1))
+			if new(big.Int).And(p, y.Int).Sign() == 0 { // y = 2^k - 1: clear the low k bits
+				return ranged(Sub(x, Mod(x, IntB(p)))), nil
+			}
+		}
 		return ranged(App(DeclUF(fmt.Sprintf("bitandnot%d", w), SInt, SInt, SInt), x, y)), nil
 	}
 	panic("arithBin: " + op.String())
